@@ -15,16 +15,16 @@ CLAIM = ("For every catalogued component-wise operator and function (vector oper
          "matrix abs/mix/equal/notEqual) the clang IR of the "
          "vector overload and of the scalar overload applied to the same symbolic component values are executed into SMT terms and the solver shows "
          "component i of the vector result is bit-identical (NaN payload excepted) to the scalar result, for all component values, lengths 1-4, "
-         "element types and qualifiers of the tier; fma is shown equal in rounding-erased (real) arithmetic because scalar fma is std::fma and vector fma is a*b+c.")
+         "element types and qualifiers of the tier; fma is shown equal in rounding-erased (real) arithmetic because scalar fma is std::fma and vector fma is a*b+c; "
+         "lowp inversesqrt (bit hack + one Newton step) is shown to have relative error below 2^-8 for every positive normal float by a lemma chain over the executed code (props/c01_lowp.py).")
 BOUNDS = ("values unbounded (every bit pattern incl. +-0, subnormals, inf, NaN, integer extremes) except documented preconditions: integer / and % with divisor != 0 and not INT_MIN/-1; "
           "shift counts 0 <= s < max(32, width); iround/uround 0 <= x and x+0.5 below 2^31; bitfieldExtract/Insert 0 <= offset, 0 <= bits, offset+bits <= width; "
           "isMultiple/next/prev/ceil/floor/roundMultiple with multiple > 0 and (signed) x +- multiple representable; signed *PowerOfTwo with |x| <= 2^(width-2); abs/sign/isPowerOfTwo except INT_MIN; nextFloat/prevFloat(x, n) with 0 <= n <= 3; findNSB bit count in 1..width (loop unwound 8 times). Signed overflow (a+b, -INT_MIN, abs(INT_MIN), ++INT_MAX) is UB in the scalar "
           "reference and the vector code alike; both are compared under the two's complement wrap-around the IR computes. "
           "quick: all lengths 1-4, element types float/int32/uint8, qualifier highp (defaultp); thorough: float/double/int8-64/uint8-64 and highp/mediump/lowp, mutant twins.")
-OUTSIDE = ("size of the rounding difference between scalar std::fma and vector a*b+c (shown equal only in exact real arithmetic); the 2^-8 accuracy of lowp inversesqrt against the exact value "
-           "(measured not to finish; decided instead: the lowp vector overload equals the lowp vec1 overload per component, and highp/mediump use 1/sqrt); accuracy of libm itself; "
-           "roundEven's int(x) for |x| >= 2^31 / NaN is UB in both overloads (C20), equality is shown with the conversion as the same unspecified function; "
-           "aligned_* qualifiers and SIMD builds (C03); bitfieldReverse/bitfieldInsert on 8/16-bit element types (do not compile, see C05); gtx/extended_min_max: its scalar 3/4-argument overloads are ambiguous with ext/scalar_common (do not compile) and its C<T> overloads cannot bind vec<L,T,Q>, "
+OUTSIDE = ("size of the rounding difference between scalar std::fma and vector a*b+c (shown equal only in exact real arithmetic); lowp inversesqrt on zero, subnormal, negative, infinite and NaN arguments and in aligned/SIMD lowp builds (its 2^-8 accuracy IS decided for every positive normal float, props/c01_lowp.py); accuracy of libm itself; "
+           ""
+           "aligned_* qualifiers and SIMD builds (C03); gtx/extended_min_max: its scalar 3/4-argument overloads are ambiguous with ext/scalar_common (do not compile) and its C<T> overloads cannot bind vec<L,T,Q>, "
            "vector calls resolve to ext/vector_common which is covered; compound assignments with a right-hand side of another element type U != T.")
 ASSUMPTIONS = ['libm transcendentals (sin, exp, pow, fmod, ...) are uninterpreted functions: the vector and the scalar overload are shown to call the same library function on the same argument; modf/frexp/ldexp/nextafter use the bit-level models of engine/models.py',
                'IEEE addition and multiplication are commutative and 1*x == x: both sides are brought to a canonical operand order before comparison (props/c01.py:canon), because clang orders commutative operands differently in the two computations',
@@ -617,5 +617,6 @@ def make_probe_job(U, cases, kid):
         for C in cases: run_case(S, U, C)
     return run
 
-def units(tier): return build(tier)[0]
-def jobs(tier): return build(tier)[1]
+import props.c01_lowp as LOWP        # lowp inversesqrt: relative error < 2^-8 for every positive normal float (lemma chain over the executed code)
+def units(tier): return build(tier)[0] + LOWP.units(tier)
+def jobs(tier): return build(tier)[1] + LOWP.jobs(tier)
